@@ -6,10 +6,11 @@ reg = {os.path.basename(f)[:-5]: json.load(open(f)) for f in glob.glob('/verif/h
 meta = json.load(open('/verif/harness/meta.json'))
 na = json.load(open('/verif/harness/na.json'))
 props = [json.loads(l) for l in open('/verif/properties.jsonl')]
+claimed_list = set(json.load(open('/verif/harness/claimed.json')))
 checks = []
 for p in props:
     pid = p['id']
-    if pid not in reg or pid in na:
+    if pid not in reg or pid in na or pid not in claimed_list:
         continue
     m = meta.get(pid, {})
     r = reg[pid]
